@@ -210,3 +210,365 @@ def stream_direct(case):
         'bytes': b'\n'.join(i if isinstance(i, bytes) else (i.data if hasattr(i, 'data') else str(i).encode())
                             for i in stream.stream).decode('latin-1'),
     }
+
+
+# ------------------------------------------------------------------ recording the Stream calls of real renders
+
+_REC = None
+_INSTALLED = False
+STATEFUL = ('push_state', 'pop_state', 'begin_text', 'end_text', 'set_color', 'set_alpha', 'set_font_size',
+            'set_state', 'transform', 'set_text_matrix', 'begin_marked_content', 'end_marked_content',
+            'set_color_space', 'set_color_special')
+# operator keywords for `Tok k` of recorded traces (k = index); anything else is appended on the fly
+KWS = ['re', 'f', 'W', 'n', 'm', 'l', 'S', 'w', 'TJ', 'Do', 'sh', 'h', 'd', 'Td', 'Ts', 'c', 'B', 'J', 'M', 'Tj',
+       'f*', 'W*', 'B*', 'b', 'b*', 's', 'v', 'y', 'j', 'Tr', 'EI']
+
+
+class Trace(object):
+    def __init__(self, stream, index):
+        import pydyf
+        self.stream = stream                 # keeps the object alive: ids are not reused
+        self.index = index
+        self.list_obj = stream.stream
+        self.depth = 0
+        self.ops = []
+        self.labels = []
+        self.flags = set()
+        self.alphas = {}                     # float value -> id
+        self.colors = {}
+        self.fonts = {}
+        self.sizes = {}
+        self.ncm = 0
+        self.ntm = 0
+        self.mark = bool(stream._mark)
+        eg = stream._resources['ExtGState']
+        self.known = list(eg.keys())
+        self.keys0 = [self.key(k) + self.content(eg[k]) for k in eg]
+        self.initial_len = len(stream.stream)
+        if self.initial_len:
+            self.flags.add('nonempty-at-start')
+
+    # -- value tables
+    def aid(self, value):
+        return self.alphas.setdefault(float(value), len(self.alphas))
+
+    def key(self, name):
+        """'a0.5' -> ['KA', stroke, alpha id, isint] ; 's3' -> ['KS', 3]"""
+        import re
+        m = re.fullmatch(r's(\d+)', name)
+        if m:
+            return ['KS', int(m.group(1))]
+        if name and name[0] in 'aA':
+            try:
+                v = float(name[1:])
+            except ValueError:
+                v = None
+            if v is not None and v == v:
+                return ['KA', name[0] == 'A', self.aid(v), bool(re.fullmatch(r'-?\d+', name[1:]))]
+        self.flags.add('unmodelled-key')
+        return ['KS', -1]
+
+    def content(self, d):
+        ca, CA = (d.get('ca'), d.get('CA')) if hasattr(d, 'get') else (None, None)
+        return [None if ca is None else self.aid(ca), None if CA is None else self.aid(CA)]
+
+    def cid(self, color):
+        sp = color.space
+        space = SPACES.index(sp) if sp in SPACES else 10
+        key = (sp, tuple(color.coordinates))
+        return [space, self.colors.setdefault(key, len(self.colors))]
+
+    # -- hooks
+    def before(self):
+        s = self.stream
+        if s.stream is not self.list_obj:
+            self.flags.add('list-replaced')
+            self.list_obj = s.stream
+        if len(s.stream) != len(self.labels) + self.initial_len:
+            self.flags.add('foreign-append')
+        eg = s._resources['ExtGState']
+        if len(eg) != len(self.known):
+            for k in list(eg.keys())[len(self.known):]:
+                kk = self.key(k)
+                if kk[0] == 'KS':
+                    self.ops.append(['xstate'] + self.content(eg[k]))
+                else:
+                    self.ops.append(['xalpha', kk[1], kk[2], kk[3]])
+            self.known = list(eg.keys())
+
+    def label_new(self, maker):
+        s = self.stream
+        del self.labels[max(0, len(s.stream) - self.initial_len):]
+        for item in s.stream[len(self.labels) + self.initial_len:]:
+            self.labels.append(maker(item))
+        self.known = list(s._resources['ExtGState'].keys())
+
+    def generic(self, item):
+        import pydyf
+        if isinstance(item, pydyf.Dictionary):
+            return ['props', int(item.get('MCID', -1))]
+        if isinstance(item, str):
+            item = item.encode()
+        if not isinstance(item, bytes):
+            self.flags.add('odd-item')
+            return ['other', 0]
+        if item in (b'q', b'Q', b'BT', b'ET', b'BMC', b'BDC', b'EMC'):
+            return [item.decode()]
+        parts = item.split()
+        kw = parts[-1].decode('latin-1') if parts else ''
+        if kw == 'gs':
+            name = parts[0][1:].decode()
+            return ['gs'] + [self.key(name)] + self.content(self.stream._resources['ExtGState'].get(name))
+        if len(parts) == 1 and item.startswith(b'/'):
+            return ['tag']
+        if kw not in KWS:
+            KWS.append(kw)
+        return ['other', KWS.index(kw)]
+
+    def after(self, name, a, k, raised):
+        s = self.stream
+        if raised:
+            self.flags.add('raised:' + raised)
+        g = self.generic
+        if name == 'push_state':
+            self.ops.append(['push']); self.label_new(g)
+        elif name == 'pop_state':
+            self.ops.append(['pop']); self.label_new(g)
+        elif name == 'begin_text':
+            self.ops.append(['bt']); self.label_new(g)
+        elif name == 'end_text':
+            self.ops.append(['et']); self.label_new(g)
+        elif name == 'set_color':
+            color = a[0] if a else k['color']
+            stroke = bool(a[1] if len(a) > 1 else k.get('stroke', False))
+            c = self.cid(color)
+            alpha = list(color)[-1]
+            self.ops.append(['color', stroke, c, self.aid(alpha), isinstance(alpha, int)])
+
+            def mk(item):
+                kw = item.split()[-1] if isinstance(item, bytes) else b''
+                if kw in (b'rg', b'RG'):
+                    return ['rg', kw == b'RG', c]
+                if kw in (b'cs', b'CS'):
+                    return ['cs', kw == b'CS', {b'/lab-d65': 1, b'/lab-d50': 2}.get(item.split()[0], 0)]
+                if kw in (b'scn', b'SCN'):
+                    return ['scn', kw == b'SCN', c]
+                return g(item)
+            self.label_new(mk)
+        elif name == 'set_alpha':
+            alpha = a[0] if a else k['alpha']
+            stroke = bool(a[1] if len(a) > 1 else k.get('stroke', False))
+            fill = a[2] if len(a) > 2 else k.get('fill', None)
+            self.ops.append(['alpha', self.aid(alpha), isinstance(alpha, int), stroke, None if fill is None else bool(fill)])
+            self.label_new(g)
+        elif name == 'set_font_size':
+            font = a[0] if a else k['font']
+            size = a[1] if len(a) > 1 else k['size']
+            f = [self.fonts.setdefault(str(font), len(self.fonts)), self.sizes.setdefault(float(size), len(self.sizes))]
+            self.ops.append(['font'] + f)
+            self.label_new(lambda item: ['Tf'] + f if isinstance(item, bytes) and item.endswith(b' Tf') else g(item))
+        elif name == 'set_state':
+            state = a[0] if a else k['state']
+            self.ops.append(['state'] + self.content(state))
+            self.label_new(g)
+        elif name == 'transform':
+            self.ncm += 1
+            n = self.ncm
+            self.ops.append(['cm', n])
+            self.label_new(lambda item: ['cm', n] if isinstance(item, bytes) and item.endswith(b' cm') else g(item))
+        elif name == 'set_text_matrix':
+            self.ntm += 1
+            n = self.ntm
+            self.ops.append(['tm', n])
+            self.label_new(lambda item: ['Tm', n] if isinstance(item, bytes) and item.endswith(b' Tm') else g(item))
+        elif name == 'begin_marked_content':
+            mcid = a[1] if len(a) > 1 else k.get('mcid', False)
+            self.ops.append(['bmc', bool(mcid)]); self.label_new(g)
+        elif name == 'end_marked_content':
+            self.ops.append(['emc']); self.label_new(g)
+        elif name == 'set_color_space' and (a[0] if a else k.get('space')) == 'Pattern':
+            stroke = bool(a[1] if len(a) > 1 else k.get('stroke', False))
+            self.ops.append(['pattern-cs', stroke])
+            self.label_new(lambda item: ['cs', stroke, 9])
+        elif name == 'set_color_special' and (a[0] if a else k.get('name')):
+            pname = str(a[0] if a else k.get('name'))
+            stroke = bool(a[1] if len(a) > 1 else k.get('stroke', False))
+            try:
+                pid = int(pname[1:]) if pname[0] == 'p' else -1
+            except ValueError:
+                pid = -1
+            if pid < 0:
+                self.flags.add('unmodelled-special-colour')
+            self.ops.append(['pattern-scn', stroke, pid])
+            self.label_new(lambda item: ['pat', stroke, pid])
+        else:
+            if name in ('set_matrix', 'set_color_rgb', 'set_color_space', 'set_color_special'):
+                self.flags.add('unmodelled-direct-' + name)       # goes behind the ctm stack / the caches
+            n0 = len(self.labels)
+            self.label_new(g)
+            for lab in self.labels[n0:]:
+                self.ops.append(['tok', lab[1]] if lab[0] == 'other' else ['tok', 0])
+                if lab[0] != 'other':
+                    self.flags.add('unmodelled-raw-' + lab[0])
+
+    def result(self):
+        s = self.stream
+        self.before()
+        ops, i = [], 0
+        while i < len(self.ops):
+            o = self.ops[i]
+            if o[0] == 'pattern-cs' and i + 1 < len(self.ops) and self.ops[i + 1][0] == 'pattern-scn' \
+                    and self.ops[i + 1][1] == o[1]:
+                ops.append(['pattern', o[1], self.ops[i + 1][2]]); i += 2
+                continue
+            if o[0] in ('pattern-cs', 'pattern-scn'):
+                self.flags.add('unmodelled-unpaired-pattern')
+                ops.append(['tok', 0]); i += 1
+                continue
+            ops.append(o); i += 1
+        if len(self.labels) + self.initial_len != len(s.stream):
+            self.flags.add('foreign-append')
+        return {'index': self.index, 'mark': self.mark, 'keys0': self.keys0, 'ops': ops, 'toks': self.labels,
+                'flags': sorted(self.flags), 'ctm_depth': len(s._ctm_stack), 'id': getattr(s, 'id', None),
+                'nalpha': len(self.alphas)}
+
+
+class Recorder(object):
+    def __init__(self):
+        self.traces = {}
+        self.order = []
+
+    def trace_of(self, stream):
+        t = self.traces.get(id(stream))
+        if t is None:
+            t = self.traces[id(stream)] = Trace(stream, len(self.order))
+            self.order.append(t)
+        return t
+
+
+def _install_recorder():
+    global _INSTALLED
+    if _INSTALLED:
+        return
+    import pydyf
+    from weasyprint.pdf.stream import Stream
+    names = [n for n in dir(pydyf.Stream) if not n.startswith('_') and callable(getattr(pydyf.Stream, n))
+             and not isinstance(getattr(pydyf.Stream, n), property)]
+    names = sorted(set(names) | set(STATEFUL))
+    for name in names:
+        if name in ('data', 'indirect', 'reference', 'compressible'):
+            continue
+        orig = getattr(Stream, name, None)
+        if orig is None or not callable(orig):
+            continue
+
+        def make(name, orig):
+            def method(self, *a, **k):
+                rec = _REC
+                if rec is None:
+                    return orig(self, *a, **k)
+                tr = rec.trace_of(self)
+                if tr.depth:
+                    tr.depth += 1
+                    try:
+                        return orig(self, *a, **k)
+                    finally:
+                        tr.depth -= 1
+                tr.before()
+                tr.depth = 1
+                raised = None
+                try:
+                    return orig(self, *a, **k)
+                except BaseException as exc:
+                    raised = type(exc).__name__
+                    raise
+                finally:
+                    tr.depth = 0
+                    tr.after(name, a, k, raised)
+            method.__name__ = name
+            return method
+        setattr(Stream, name, make(name, orig))
+    _INSTALLED = True
+
+
+# ------------------------------------------------------------------------------------------- full renders
+
+RESOURCES = None
+
+
+def _html(case):
+    from tests.testing_utils import FakeHTML, resource_path
+    return FakeHTML(string=case['html'], base_url=resource_path('<inline HTML>'))
+
+
+def _options(case):
+    opts = dict(case.get('options') or {})
+    if isinstance(opts.get('pdf_identifier'), str):
+        opts['pdf_identifier'] = opts['pdf_identifier'].encode('latin-1')
+    if opts.get('attachments'):
+        from weasyprint import Attachment
+        opts['attachments'] = [Attachment(string=a['data'].encode('latin-1'), name=a.get('name'),
+                                          description=a.get('description')) for a in opts['attachments']]
+    return opts
+
+
+class _Capture(__import__('logging').Handler):
+    """exceptions that WeasyPrint swallows while drawing (SVGImage.draw logs them at DEBUG level)"""
+    def __init__(self):
+        super().__init__(level=0)
+        self.sites = []
+
+    def emit(self, record):
+        if record.exc_info and str(record.msg).startswith('Error while rendering SVG'):
+            exc = record.exc_info if isinstance(record.exc_info, BaseException) else record.exc_info[1]
+            import traceback
+            site = None
+            for fr in reversed(traceback.extract_tb(exc.__traceback__)):
+                if '/weasyprint/' in fr.filename:
+                    site = '%s:%s:%s' % (type(exc).__name__, fr.filename.split('/weasyprint/')[-1], fr.name)
+                    break
+            self.sites.append(site or type(exc).__name__)
+
+
+def render_pdf(case):
+    """case: dict(html, options, zoom, record, twin).  Renders, parses the PDF with harness/pdfread.py and judges it
+    with p_c16.judge_pdf inside the worker (the PDF bytes do not travel).  Returns dict(bad=[(clause, detail)],
+    stats, skeletons, traces?)."""
+    global _REC
+    import p_c16
+    opts = _options(case)
+    zoom = case.get('zoom', 1)
+    rec = None
+    if case.get('record'):
+        _install_recorder()
+        rec = _REC = Recorder()
+    import logging
+    from weasyprint.logger import LOGGER
+    cap = _Capture()
+    old_level, old_propagate = LOGGER.level, LOGGER.propagate
+    LOGGER.addHandler(cap)
+    LOGGER.setLevel(logging.DEBUG)
+    LOGGER.propagate = False
+    try:
+        document = _html(case).render(**opts)
+        pdf = document.write_pdf(zoom=zoom, **opts)
+    finally:
+        _REC = None
+        LOGGER.removeHandler(cap)
+        LOGGER.setLevel(old_level)
+        LOGGER.propagate = old_propagate
+    pages = [{'w': p.width, 'h': p.height, 'bleed': dict(p.bleed)} for p in document.pages]
+    verdict = p_c16.judge_pdf(pdf, case, pages)
+    verdict['swallowed'] = cap.sites
+    if case.get('twin'):
+        # the same document with the opposite compression: the decoded content streams must be the same
+        opts2 = _options(case)
+        opts2['uncompressed_pdf'] = not opts2.get('uncompressed_pdf', False)
+        pdf2 = _html(case).render(**opts2).write_pdf(zoom=zoom, **opts2)
+        verdict['bad'] += p_c16.compare_twins(pdf, pdf2)
+        verdict['stats']['twin'] = True
+    if rec is not None:
+        verdict['traces'] = [t.result() for t in rec.order]
+    if case.get('keep_pdf'):
+        verdict['pdf'] = pdf.decode('latin-1')
+    return verdict
